@@ -2,6 +2,7 @@
 pub mod case;
 pub mod cli;
 pub mod exact;
+pub mod fuzzdec;
 pub mod cellinfo;
 pub mod gen;
 pub mod known;
